@@ -82,6 +82,9 @@ class PathWorld:
     def nodes_equal(self, a, b):
         return False
 
+    def on_handler(self, ip, r, handler):
+        pass
+
     def resolve_name(self, ip, name, node):
         if name in self.functions:
             return FuncRefP(name)
@@ -170,6 +173,7 @@ class PathWorld:
 
     def call(self, ip, f, args, kwargs, node):
         if isinstance(f, FuncRefP):
+            # the two measures are interpreted on their own below; inside annotate_paths they are symbols
             if f.name == "path_length" and len(args) == 1 and isinstance(args[0], PathV):
                 return Int("L%d" % args[0].i)
             if f.name == "path_duration" and len(args) == 1 and isinstance(args[0], PathV):
@@ -289,21 +293,24 @@ def check_annotate_paths(repo: Repo, rep: Report, tier="quick"):
     rep.stats["zero_symbol"] = zero_used
     rep.stats["exhaustive"] = True
     rep.sample(dict(engine="O", function=construct, generic_paths=2 if zero_used else 3, order_types=stats["order_types"], runs=stats["runs"]))
-    # path_length / path_duration themselves
-    pl, pd = repo.get(PATHS, "path_length"), repo.get(PATHS, "path_duration")
-    rl = [n for n in walk_no_nested(pl) if isinstance(n, ast.Return)]
-    ok = len(rl) == 1 and src(rl[0].value) == "len(%s)" % pl.args.args[0].arg
-    rep.ob("S2.path_length", repo.construct(PATHS, "path_length"), "returns len(path)", ok=ok)
-    if not ok:
-        rep.finding("S2.path_length", repo.construct(PATHS, "path_length"), "not-len", "path_length does not return the hop count (%s)" % "; ".join(src(r) for r in rl))
-    p = pd.args.args[0].arg
-    rd = [n for n in walk_no_nested(pd) if isinstance(n, ast.Return)]
-    good = {"%s[-1][-1] - %s[0][-1]" % (p, p), "%s[-1][2] - %s[0][2]" % (p, p)}
-    ok = len(rd) == 1 and src(rd[0].value) in good
-    rep.ob("S2.path_duration", repo.construct(PATHS, "path_duration"), "returns last time - first time", ok=ok)
-    if not ok:
-        rep.finding("S2.path_duration", repo.construct(PATHS, "path_duration"), "not-last-minus-first",
-                    "path_duration does not return last hop time - first hop time (%s)" % "; ".join(src(r) for r in rd))
+    # path_length / path_duration themselves, interpreted on a generic path
+    mot1 = MultiOT({"L": OrderType([["L1"]], [], 1), "D": OrderType([["D1"]], [], 1), "R": OrderType([["R1"]], [], 1),
+                    "S": OrderType([["S1"]], [], 1)}, R=1)
+    for fname, want in (("path_length", "L1"), ("path_duration", "D1")):
+        f = repo.get(PATHS, fname)
+        w = PathWorld({k: v for k, v in functions.items() if k not in ("path_length", "path_duration")}, {})
+        ip = Interp(w, mot1, max_depth=3)
+        try:
+            v = ip.call_function(f, {f.args.args[0].arg: PathV(1)})
+            ok = isinstance(v, Int) and v.term() == (want, 0)
+            got = repr(v)
+        except AbstractRaise as r:
+            ok, got = False, "raises %s" % r.exc
+        rep.ob("O.%s" % fname, repo.construct(PATHS, fname), "returns %s of a generic path" % ("the hop count" if fname == "path_length" else "last time - first time"), ok=ok)
+        if not ok:
+            rep.finding("O.%s" % fname, repo.construct(PATHS, fname), "wrong-measure",
+                        "%s of a generic path evaluates to %s, expected %s" % (fname, got, "its hop count" if fname == "path_length" else
+                                                                                "time of its last hop - time of its first hop"), line=f.lineno)
     return stats["order_types"]
 
 
@@ -608,6 +615,26 @@ def _calls(fn, attr):
     return [c for c in walk_no_nested(fn) if isinstance(c, ast.Call) and isinstance(c.func, ast.Attribute) and c.func.attr == attr]
 
 
+def _with_helpers(repo, fn, depth=2):
+    """fn plus the module-level helpers it calls (by name), transitively to a small depth."""
+    funcs = repo.functions(PATHS)
+    out, seen, frontier = [fn], {fn.name}, [fn]
+    for _ in range(depth):
+        nxt = []
+        for f in frontier:
+            for c in ast.walk(f):
+                if isinstance(c, ast.Call) and isinstance(c.func, ast.Name) and c.func.id in funcs and c.func.id not in seen:
+                    seen.add(c.func.id)
+                    out.append(funcs[c.func.id])
+                    nxt.append(funcs[c.func.id])
+        frontier = nxt
+    return out
+
+
+def _unknown(rule, construct, what):
+    raise AnalysisError("%s at %s: %s - the shape of the code is not one this rule can judge" % (rule, construct, what))
+
+
 def check_path_discipline(repo: Repo, rep: Report, which=("dag", "paths")):
     n = 0
     if "dag" in which:
@@ -660,21 +687,35 @@ def check_path_discipline(repo: Repo, rep: Report, which=("dag", "paths")):
                 rep.finding("S.dag.expiry", construct, "expiry-by-%s" % c.func.attr,
                             "the expansion loop consults %s: on a directed graph that also counts incoming interactions, so an occurrence that can "
                             "no longer move forward would be kept waiting" % src(c)[:50], line=c.lineno)
-        appends = [c for c in ast.walk(main) if isinstance(c, ast.Call) and isinstance(c.func, ast.Attribute) and c.func.attr == "append"
-                   and isinstance(c.func.value, ast.Name) and "remove" in c.func.value.id]
+        # some branch taken exactly when the neighbour set of the snapshot is empty must retire the occurrence
         n += 1
-        ok = bool(appends)
-        if ok:
-            ok = False
-            for i in ast.walk(main):
-                if isinstance(i, ast.If) and any(a is x for a in appends for s in i.body for x in ast.walk(s)):
-                    t = src(i.test)
-                    if "len(neighbors) == 0" in t or "not neighbors" in t:
-                        ok = True
-        rep.ob("S.dag.expiry", construct, "an occurrence without neighbour at the snapshot expires", ok=ok)
-        if not ok:
-            rep.finding("S.dag.expiry", construct, "no-expiry", "occurrences with no neighbour at a snapshot are not expired "
-                        "(waiting condition of C12 would not hold)", line=main.lineno)
+        nb_names = set()
+        for a in ast.walk(main):
+            if isinstance(a, ast.Assign) and any(isinstance(c, ast.Call) and isinstance(c.func, ast.Attribute) and c.func.attr == "neighbors"
+                                                 for c in ast.walk(a.value)):
+                nb_names |= {t.id for t in a.targets if isinstance(t, ast.Name)}
+        def empties(test):
+            t = src(test).replace(" ", "")
+            return any(("len(%s)==0" % nm) in t or ("not%s" % nm) in t.replace("(", "").replace(")", "") or ("notlen(%s)" % nm) in t
+                       for nm in nb_names)
+        def retires(body):
+            for st in body:
+                for c in ast.walk(st):
+                    if isinstance(c, ast.Call) and isinstance(c.func, ast.Attribute) and c.func.attr in ("append", "add", "pop", "discard") \
+                            and isinstance(c.func.value, ast.Name) and ("remove" in c.func.value.id or "expire" in c.func.value.id or c.func.value.id == "active"):
+                        return True
+                    if isinstance(c, ast.Delete):
+                        return True
+            return False
+        guarded = [i for i in ast.walk(main) if isinstance(i, ast.If) and empties(i.test) and retires(i.body)]
+        used_bad = any(isinstance(c, ast.Call) and isinstance(c.func, ast.Attribute) and c.func.attr in ("has_node", "degree", "in_degree")
+                       for c in ast.walk(main))
+        if guarded:
+            rep.ob("S.dag.expiry", construct, "an occurrence without neighbour at the snapshot expires", ok=True)
+        elif used_bad:
+            rep.ob("S.dag.expiry", construct, "expiry by emptiness of neighbors(.., tid)", ok=False)    # reported above
+        else:
+            _unknown("S.dag.expiry", construct, "no branch on the emptiness of the neighbour set that retires the occurrence was recognised")
     if "paths" in which:
         fn = repo.get(PATHS, "time_respecting_paths")
         construct = repo.construct(PATHS, "time_respecting_paths")
@@ -687,7 +728,8 @@ def check_path_discipline(repo: Repo, rep: Report, which=("dag", "paths")):
         if not ok:
             rep.finding("S.paths.start", construct, "no-start-guard", "time_respecting_paths does not first check that u is present at start", line=fn.lineno)
         # equal-time and reversal filter on consecutive hops
-        cmps = [c for c in ast.walk(fn) if isinstance(c, ast.Compare) and len(c.ops) == 1 and isinstance(c.left, ast.Subscript)
+        scope = _with_helpers(repo, fn)
+        cmps = [c for f in scope for c in ast.walk(f) if isinstance(c, ast.Compare) and len(c.ops) == 1 and isinstance(c.left, ast.Subscript)
                 and isinstance(c.comparators[0], ast.Subscript) and isinstance(c.left.value, ast.Name) and isinstance(c.comparators[0].value, ast.Name)
                 and c.left.value.id != c.comparators[0].value.id]
         def idx(s):
@@ -695,25 +737,36 @@ def check_path_discipline(repo: Repo, rep: Report, which=("dag", "paths")):
         time_eq = [c for c in cmps if idx(c.left) in (2, -1) and idx(c.comparators[0]) in (2, -1) and isinstance(c.ops[0], (ast.Eq, ast.GtE, ast.LtE))]
         rev = [c for c in cmps if {idx(c.left), idx(c.comparators[0])} == {0, 1} and isinstance(c.ops[0], ast.Eq)]
         n += 2
+        if not time_eq and not rev:
+            _unknown("S.paths.filter", construct, "the hop filter (reversal / equal-time tests on consecutive hops) was not recognised")
         rep.ob("S.paths.filter", construct, "consecutive hops with equal times are rejected", ok=bool(time_eq))
         if not time_eq:
-            rep.finding("S.paths.filter", construct, "no-equal-time-filter", "no comparison of the times of two consecutive hops: a path whose "
-                        "consecutive hops share an instant (times not strictly increasing) would be returned", line=fn.lineno)
+            # the filter is there (it tests reversals) but never looks at the times
+            rep.finding("S.paths.filter", construct, "no-equal-time-filter", "the hop filter tests reversals but never compares the times of two "
+                        "consecutive hops: a path whose consecutive hops share an instant (times not strictly increasing) would be returned",
+                        line=fn.lineno)
         rep.ob("S.paths.filter", construct, "immediate reversals are rejected", ok=len(rev) >= 2)
         if len(rev) < 2:
-            rep.finding("S.paths.filter", construct, "no-reversal-filter", "no test that a hop does not immediately reverse the previous one", line=fn.lineno)
+            rep.finding("S.paths.filter", construct, "no-reversal-filter", "the hop filter compares times but has no test that a hop does not "
+                        "immediately reverse the previous one", line=fn.lineno)
         # non-empty before keying (P4) and the key (first source, last destination)
-        keyed = [s for s in ast.walk(fn) if isinstance(s, ast.Assign) and isinstance(s.value, ast.Tuple) and len(s.value.elts) == 2
-                 and all(isinstance(e, ast.Subscript) for e in s.value.elts)]
+        tuples = [t for f in scope for t in ast.walk(f) if isinstance(t, ast.Tuple) and len(t.elts) == 2
+                  and all(isinstance(e, ast.Subscript) and isinstance(e.value, ast.Subscript) for e in t.elts)]
         n += 1
-        okk = any(src(s.value).replace(" ", "") in ("(p[0][0],p[-1][1])",) or
-                  (src(s.value.elts[0]).endswith("[0][0]") and src(s.value.elts[1]).endswith("[-1][1]")) for s in keyed)
-        rep.ob("S.paths.key", construct, "paths keyed by (first source, last destination)", ok=okk)
-        if not okk:
-            rep.finding("S.paths.key", construct, "key", "paths are not grouped under (first node, last node)", line=fn.lineno)
+        good = [t for t in tuples if src(t.elts[0]).endswith("[0][0]") and src(t.elts[1]).endswith("[-1][1]")]
+        if good:
+            rep.ob("S.paths.key", construct, "paths keyed by (first source, last destination)", ok=True)
+        elif tuples:
+            rep.ob("S.paths.key", construct, "paths keyed by (first source, last destination)", ok=False)
+            rep.finding("S.paths.key", construct, "key", "paths are grouped under %s, expected (first hop's source, last hop's destination)" % src(tuples[0]),
+                        line=tuples[0].lineno)
+        else:
+            _unknown("S.paths.key", construct, "the grouping key of the returned paths was not recognised")
         n += 1
-        guards = [c for c in ast.walk(fn) if isinstance(c, ast.Compare) and src(c).replace(" ", "") in ("len(pt)>0", "len(pt)>=1", "len(pt)!=0")]
-        truthy = [i for i in ast.walk(fn) if isinstance(i, ast.If) and ("and pt" in src(i.test) or src(i.test).strip() == "pt")]
+        import re as _re
+        guards = [c for f in scope for c in ast.walk(f) if isinstance(c, ast.Compare) and _re.fullmatch(r"len\(\w+\)(>0|>=1|!=0)", src(c).replace(" ", ""))]
+        truthy = [i for f in scope for i in ast.walk(f) if isinstance(i, (ast.If, ast.IfExp, ast.comprehension)) and _re.search(
+            r"(^|and |if )(\w+)$|(\w+) and ", src(i.test) if not isinstance(i, ast.comprehension) else " ".join(src(x) for x in i.ifs) or "-")]
         ok = bool(guards or truthy)
         rep.ob("P4.nonempty", construct, "empty hop lists are not kept", ok=ok)
         if not ok:
